@@ -314,9 +314,15 @@ def run_to_completion(state: State, external_event: Union[dict, Event]) -> State
                     if "data" in event.arguments and isinstance(event.arguments, dict):
                         state.context.update(event.arguments["data"])
 
-                handled_event_loops = _process_internal_events_without_default_matchers(
-                    state, event
-                )
+                try:
+                    handled_event_loops = (
+                        _process_internal_events_without_default_matchers(state, event)
+                    )
+                except Exception as e:
+                    # A runtime error while a flow is started, stopped or finished on behalf
+                    # of a flow must only fail that flow, all the others still get the event
+                    handled_event_loops = set()
+                    _fail_event_source_flow(state, event, e)
 
                 head_candidates = _get_all_head_candidates(state, event)
 
@@ -1056,6 +1062,33 @@ def _try_generate_action_event(state: State, head: FlowHead) -> bool:
             ),
         )
         return False
+
+
+def _fail_event_source_flow(state: State, event: Event, e: Exception) -> None:
+    """Fail the flow that sent an internal event which could not be processed."""
+    log.warning(
+        "Internal event %s failed due to Colang runtime exception: %s",
+        event.name,
+        e,
+        exc_info=True,
+    )
+    source_flow_instance_uid = None
+    if isinstance(event.arguments, dict):
+        source_flow_instance_uid = event.arguments.get("source_flow_instance_uid")
+    source_flow_state = (
+        state.flow_states.get(source_flow_instance_uid)
+        if isinstance(source_flow_instance_uid, str)
+        else None
+    )
+    if source_flow_state is not None and is_active_flow(source_flow_state):
+        _abort_flow(state, source_flow_state, event.matching_scores)
+    _push_left_internal_event(
+        state,
+        Event(
+            name="ColangError",
+            arguments={"type": str(type(e).__name__), "error": str(e)},
+        ),
+    )
 
 
 def _advance_head_front(state: State, heads: List[FlowHead]) -> List[FlowHead]:
